@@ -344,7 +344,9 @@ impl Cc for OctColor {
 /// one (colour type, w, h) geometry: all supplied lengths
 fn var_case<C: Cc>(w: u32, h: u32, every_pixel: bool, miri: bool, rep: &mut Report) {
     let req = required(C::PLANES, C::BPP, w as usize, h as usize);
-    let mut lens = vec![req, req + 1, 0];
+    // exact, one short, one long, and clearly over-long slices (a caller may hand in a larger scratch area:
+    // the planes the accessors expose must still be the planes drawing goes to)
+    let mut lens = vec![req, req + 1, req + 2, req + 7, 2 * req + 3, 0];
     if req > 0 {
         lens.push(req - 1);
     }
